@@ -1570,6 +1570,11 @@ impl Tree {
 
 		// Step 2: Reload in-memory state to match restored files
 
+		// Cached blocks and values are keyed by (table id, offset) / (vlog file id, offset).
+		// The restored timeline hands those ids out again for different content, so
+		// everything cached so far is stale.
+		self.core.inner.opts.block_cache.clear();
+
 		// The value log directory was replaced as well: drop the writer and the file
 		// handles that belong to the discarded timeline.
 		if let Some(ref vlog) = self.core.inner.vlog {
